@@ -332,9 +332,9 @@ func (p *printer) attrs(as []Attr, depth int) {
 			}
 		case "scriptcall":
 			if p.v == 1 {
-				fmt.Fprintf(&p.sb, "%sonclick={greet(\"x\")}", sep)
+				fmt.Fprintf(&p.sb, "%s%s={greet(\"x\")}", sep, a.N)
 			} else {
-				fmt.Fprintf(&p.sb, "%sonclick={ greet(\"x\") }", sep)
+				fmt.Fprintf(&p.sb, "%s%s={ greet(\"x\") }", sep, a.N)
 			}
 		case "class2":
 			if p.v == 1 {
@@ -700,6 +700,20 @@ func TemplateBodyOdd(prog []Node, v Variant, odd int) string {
 func HeaderV(pkg string, v Variant) string {
 	h := Header(pkg)
 	switch v {
+	case 1:
+		// the only import is aliased
+		h = strings.Replace(h, "import \"strings\"\n\nfunc up(s string) string { return strings.ToUpper(s) }",
+			"import str \"strings\"\n\nfunc up(s string) string { return str.ToUpper(s) }", 1)
+	case 2:
+		// a grouped import block that names templ itself: the import rewriting drops that import (generated code
+		// imports templ anyway) and is left with a single import
+		h = strings.Replace(h, "import \"strings\"\n", "import (\n\t\"strings\"\n\n\t\"github.com/a-h/templ\"\n)\n\nvar _ templ.Component\n", 1)
+	}
+	if v == 3 {
+		// templ itself imported under another name, and used under that name
+		h = strings.Replace(h, "import \"strings\"\n", "import (\n\t\"strings\"\n\n\tt \"github.com/a-h/templ\"\n)\n\nvar _ t.Component\n", 1)
+	}
+	switch v {
 	case 0:
 		return h + "script greet(a string) {\n\talert(a);\n}\n\ncss boxed() {\n\tcolor: red;\n\t--brandColor: blue;\n}\n\ncss tinted(c string) {\n\t--accentColor: { c };\n}\n\n"
 	default:
@@ -708,11 +722,14 @@ func HeaderV(pkg string, v Variant) string {
 }
 
 // FormattedHeaderV is what the formatter makes of HeaderV(pkg, v): css templates are laid out anew, the body of a
-// script template is kept byte for byte (the tab in front of its closing brace belongs to the body).
-func FormattedHeaderV(pkg string, v Variant) string {
-	h := HeaderV(pkg, 0)
-	if v != 0 {
-		h = strings.Replace(h, "\talert(a);\n}", "\talert(a);\n\t}", 1)
+// script template is kept byte for byte (the tab in front of its closing brace belongs to the body); Go code is
+// kept as it is, except that formatting with a file name (viaImports) rewrites the import block.
+func FormattedHeaderV(pkg string, v Variant, viaImports bool) string {
+	h := HeaderV(pkg, v)
+	h = strings.Replace(h, "\t--brandColor: blue;\n\t}", "\t--brandColor: blue;\n}", 1)
+	h = strings.Replace(h, "\t--accentColor: { c };\n\t}", "\t--accentColor: { c };\n}", 1)
+	if v == 2 && viaImports {
+		h = strings.Replace(h, "import (\n\t\"strings\"\n\n\t\"github.com/a-h/templ\"\n)\n", "import \"strings\"\n", 1)
 	}
 	return h
 }
